@@ -21,7 +21,7 @@ RULE = (
     "{1..9} u {k*c, k*c+-1} x chunksize {1,2,3,None} x seed {0,1,12345} x attributes {none, weights, redshifts, both; "
     "value i encodes source row i} x workers {1, 2 (virtual pool, all delivery orders)}; history: every sequence of "
     "length <= 3 over {direct call, probe, full pass, abandoned partial pass} before the observed pass, and repeated "
-    "Catalog.from_random with one generator; uniformity: the generator's rng replaced by a stub returning an exact "
+    "Catalog.from_random with one generator; probe: get_probe(s) for s in 1..n x chunksize {1,2,3,None} returns exactly s points, reproducibly; uniformity: the generator's rng replaced by a stub returning an exact "
     "regular grid, the points must satisfy ra = lo+u(hi-lo), sin(dec) = sin(lo)+v(sin(hi)-sin(lo)). Oracle: exact "
     "count, every point inside the window, weight and redshift name the same source row, records identical to a "
     "fresh generator with that seed. Non-trivial: size not a multiple of the chunk size, or a non-empty history."
@@ -67,6 +67,10 @@ def cases(tier, seed):
                 out.append(dict(part="history", hist=list(hist), n=n, chunksize=c, seed=12345, attrs="wz"))
     for win, n in itertools.product(WINDOWS, (1, 2, 7, 64)):
         out.append(dict(part="uniform", window=win, n=n))
+    # the probe used for generating patch centres: exactly the requested number of points, whatever the chunk size
+    for c, n in itertools.product((1, 2, 3, None), (5, 7)):
+        for size in range(1, n + 1):
+            out.append(dict(part="probe", chunksize=c, n=n, size=size, seed=12345, attrs="wz"))
     for reps, c in itertools.product((2, 3), (2, None)):
         out.append(dict(part="refrom", reps=reps, chunksize=c, n=5, seed=7))
     return out
@@ -212,6 +216,25 @@ def run_history(case):
     return v, len(case["hist"]) > 0
 
 
+def run_probe(case):
+    from yaw.catalog.readers import RandomReader
+
+    n, c, size = case["n"], case["chunksize"], case["size"]
+    reader = RandomReader(make_gen("box", case["attrs"], case["seed"]), n, c)
+    v = []
+    got = reader.get_probe(size)
+    if len(got) != size:
+        v.append(dict(signature="C16/probe/size", what=f"get_probe({size}) on a reader of {n} points with chunksize {c} "
+                      f"returned {len(got)} points"))
+    else:
+        check_points(got, "box", case["attrs"], v, "probe")
+        fresh = RandomReader(make_gen("box", case["attrs"], case["seed"]), n, c).get_probe(size)
+        again = reader.get_probe(size)
+        if not (np.array_equal(got, fresh) and np.array_equal(got, again)):
+            v.append(dict(signature="C16/probe/not-reproducible", what="get_probe does not reproduce the same points"))
+    return v, bool(c is not None and size > c)
+
+
 class GridRng:
     """Stub with the two methods the generators use; uniform() returns an exact regular grid."""
 
@@ -268,7 +291,7 @@ def run_refrom(case):
 
 
 def run_case(case):
-    fn = dict(catalog=run_catalog, history=run_history, uniform=run_uniform, refrom=run_refrom)[case["part"]]
+    fn = dict(catalog=run_catalog, history=run_history, uniform=run_uniform, refrom=run_refrom, probe=run_probe)[case["part"]]
     viols, nontrivial = fn(case)
     res = dict(nontrivial=bool(nontrivial), key=case)
     if viols:
